@@ -274,6 +274,10 @@ func (w *Workload) GenDocCmd(r *model.Rand, big bool) Base {
 		o.MaxInsts = 8
 		d0 := model.GenDoc(r, o)
 		want := 120 + r.Intn(120)
+		if r.Chance(1, 5) {
+			// beyond a thousand instances (thresholds such as 1024)
+			want = 1030 + r.Intn(500)
+		}
 		for len(d0.Insts) < want {
 			d0.Insts = append(d0.Insts, model.GenDoc(r, o).Insts...)
 		}
